@@ -128,13 +128,16 @@ fn sym_text(c: &Case) -> Option<String> {
         6 => cfi(format!(".cfa: {sp} 1 + .ra: {in_func}")),           // never touches memory, 1 byte per frame
         7 => cfi(format!(".cfa: {sp} {p} + .ra: {in_func}")),         // never touches memory, one word per frame
         10 => Some(format!("{head}STACK CFI INIT 1000 80 .cfa: {sp} .ra: {}\nSTACK CFI INIT 1080 80 .cfa: {sp} .ra: {}\n", in_func + 0x80, in_func)), // two ranges calling each other, sp never moves
+        // PUBLIC records only, all above the in-function address: that address has no symbol at all, the
+        // "module but no function" address (0x8000) belongs to p
+        11 => Some("MODULE Linux x 000000000000000000000000000000000 m\nPUBLIC 4000 0 p\nPUBLIC 9000 0 q\n".to_string()),
         8 => Some(format!("{head}STACK WIN 4 1000 100 0 0 0 0 0 0 1 $T0 $ebp = $eip $T0 4 + ^ = $ebp $T0 ^ = $esp $T0 8 + =\n")),
         _ => Some(format!("{head}STACK WIN 0 1000 100 0 0 0 0 4 0 0 0\n")),
     }
 }
 
 fn sym_name(m: u64) -> &'static str {
-    ["none", "FUNC only", "CFI cfa=sp+ptr ra=[cfa-ptr]", "CFI cfa=sp ra=const", "CFI cfa=sp-ptr ra=const", "CFI cfa=[sp] ra=[cfa-ptr]", "CFI cfa=sp+1 ra=const", "CFI cfa=sp+ptr ra=const", "STACK WIN framedata", "STACK WIN fpo", "CFI ping-pong cfa=sp ra=other range"][m as usize]
+    ["none", "FUNC only", "CFI cfa=sp+ptr ra=[cfa-ptr]", "CFI cfa=sp ra=const", "CFI cfa=sp-ptr ra=const", "CFI cfa=[sp] ra=[cfa-ptr]", "CFI cfa=sp+1 ra=const", "CFI cfa=sp+ptr ra=const", "STACK WIN framedata", "STACK WIN fpo", "CFI ping-pong cfa=sp ra=other range", "PUBLIC only (p at 0x4000, q at 0x9000)"][m as usize]
 }
 
 fn modules_of(c: &Case) -> Vec<(String, u64, u64)> {
@@ -309,9 +312,13 @@ fn run_case(vi: usize, b: &Bounds, idx: u64, l: &mut Local) {
             }
         }
         if f.function_name.is_some() || f.function_base.is_some() {
-            // the only function any symbol menu defines is f = [module m + 0x1000, + 0x100)
+            // the symbol menus define f = [module m + 0x1000, + 0x100) or the PUBLICs p (from 0x4000) and q (from 0x9000)
             let fb = c.modbase + 0x1000;
-            if f.function_base != Some(fb) || f.function_name.as_deref() != Some("f") || !(f.instruction >= fb && f.instruction < fb + 0x100) || f.module.is_none() {
+            let (pb, qb) = (c.modbase + 0x4000, c.modbase + 0x9000);
+            let is_f = c.symmenu != 11 && f.function_base == Some(fb) && f.function_name.as_deref() == Some("f") && f.instruction >= fb && f.instruction < fb + 0x100;
+            let is_p = c.symmenu == 11 && f.function_base == Some(pb) && f.function_name.as_deref() == Some("p") && f.instruction >= pb && f.instruction < qb;
+            let is_q = c.symmenu == 11 && f.function_base == Some(qb) && f.function_name.as_deref() == Some("q") && f.instruction >= qb;
+            if !(is_f || is_p || is_q) || f.module.is_none() {
                 bad(l, j, "function-does-not-cover", format!("function {:?} at {:x?} attached to instruction {:#x}", f.function_name, f.function_base, f.instruction));
             }
         }
@@ -371,6 +378,17 @@ fn main() {
                 let b = tg;
                 let len = b.k.pow(b.n) * b.nctx * b.nvalid * nsym(*arch, &b) * b.nmod * b.nplace;
                 let name = format!("tagged-words-{}-{}", arch.name(), os_name(*os));
+                def.spaces.push(Space::new(&name, len, move |idx, l| run_case(vi, &b, idx, l), move |idx| describe(vi, &b, idx)).chunked(4096));
+            }
+        }
+        // both tiers: a symbol file with PUBLIC records only
+        {
+            const PUBLIC_ONLY: &[u64] = &[11];
+            let pb = Bounds { n: 3, k: 8, nctx: 8, nvalid: 3, nmod: 2, nplace: 2, syms: PUBLIC_ONLY, tagged: false };
+            for (vi, (arch, os)) in VARIANTS5.iter().enumerate() {
+                let b = pb;
+                let len = b.k.pow(b.n) * b.nctx * b.nvalid * nsym(*arch, &b) * b.nmod * b.nplace;
+                let name = format!("public-only-{}-{}", arch.name(), os_name(*os));
                 def.spaces.push(Space::new(&name, len, move |idx, l| run_case(vi, &b, idx, l), move |idx| describe(vi, &b, idx)).chunked(4096));
             }
         }
